@@ -856,3 +856,4 @@ def rule_chunks_interp(repo, rep):
       rep.unknown(R, key, site(f, v[2]) if v[2] is not None else site(f),
                   v[1])
   rep.floor('chunk layouts x requests interpreted', ncombo, 28)
+  return dict((c, verdict.get(c, ('derived',))[0]) for c in clauses)
